@@ -64,10 +64,11 @@ type State struct {
 	alloc  string
 	held   string // lock ghost: 0 none, 1 read, 2 write (term)
 	epoch  int    // id of the last whole-heap havoc this state has seen
+	trN    string // ghost: number of traced calls made so far by this activation
 }
 
 func (s *State) clone() *State {
-	n := &State{heap: make(map[string]string, len(s.heap)), locals: make(map[*ssa.Alloc]string, len(s.locals)), alloc: s.alloc, held: s.held, epoch: s.epoch}
+	n := &State{heap: make(map[string]string, len(s.heap)), locals: make(map[*ssa.Alloc]string, len(s.locals)), alloc: s.alloc, held: s.held, epoch: s.epoch, trN: s.trN}
 	for k, v := range s.heap {
 		n.heap[k] = v
 	}
@@ -131,6 +132,10 @@ type Ctx struct {
 	specErr       string // set when spec-level evaluation needed something impure
 	pendingShift  int
 	noWF          bool
+	extraUses     []string
+	curArgs       []Val
+	curState      *State
+	myStore       string
 	gvTypes       map[string]string
 	trackSmall    map[string]bool // tracked labels with Int sort that a small-model retry may bound
 	declared      map[string]bool
@@ -316,6 +321,9 @@ func (c *Ctx) setArr(st *State, name, elemSort, term string) {
 }
 
 func (c *Ctx) havocArr(st *State, name string) {
+	if strings.HasPrefix(name, "TR_") {
+		return // the ghost call log is not program memory
+	}
 	if _, ok := c.arrays[name]; !ok {
 		return // never used so far; base version is unconstrained anyway
 	}
@@ -358,6 +366,7 @@ const prelude = `(set-option :produce-models true)
 (declare-const f64_zero F64)
 (declare-fun dtype (Int) Int)
 (declare-fun fnid (Int) Int)
+(declare-fun iterStore (Int) Bool)
 (declare-fun strlen (Str) Int)
 (declare-fun str_cat (Str Str) Str)
 (declare-fun str_lt (Str Str) Bool)
